@@ -23,16 +23,19 @@ VARIABLES l, S, hist, dead, lfd, kfd, nbad, nsteps,
           \* C07 (relational, ServerAbs on the log alone -- keeps judging after the detailed model has diverged):
           bk,        \* clients waiting to be accepted, in connect order
           fdc,       \* descriptor number -> client whose connection the server accepted there (0: none)
-          tok        \* requests yielded and not yet answered: [c, tag, fd]
-vars == <<l, S, hist, dead, lfd, kfd, nbad, nsteps, rx, supplied, bk, fdc, tok>>
+          tok,       \* requests yielded and not yet answered: [c, tag, fd]
+          cause      \* C09 (relational): clients that gave the server a reason to hang up on them (closed or shut down
+                     \* a direction themselves, or were sent a response that may not fit their socket)
+vars == <<l, S, hist, dead, lfd, kfd, nbad, nsteps, rx, supplied, bk, fdc, tok, cause>>
 AbsSame == UNCHANGED <<bk, fdc, tok>>
-RxSame == UNCHANGED <<rx, supplied>> /\ AbsSame
-RxInit == [hdr |-> <<>>, need |-> 0, tagbuf |-> <<>>, tags |-> <<>>, bad |-> FALSE]
+CauseSame == UNCHANGED cause
+RxSame == UNCHANGED <<rx, supplied, cause>> /\ AbsSame
+RxInit == [hdr |-> <<>>, need |-> 0, tagbuf |-> <<>>, tags |-> <<>>, bad |-> FALSE, c503 |-> FALSE]
 
 Init == /\ l = 1 /\ S = InitState(<<0>>, FALSE) /\ hist = 0 /\ dead = TRUE
         /\ lfd = 0 /\ kfd = 0 /\ nbad = 0 /\ nsteps = 0
         /\ rx = [c \in Clients |-> RxInit] /\ supplied = [c \in Clients |-> <<>>]
-        /\ bk = <<>> /\ fdc = [f \in Fds |-> 0] /\ tok = {}
+        /\ bk = <<>> /\ fdc = [f \in Fds |-> 0] /\ tok = {} /\ cause = {}
 
 Ev(e) == l <= Len(Rec) /\ Rec[l].e = e /\ l' = l + 1
 
@@ -68,7 +71,7 @@ TReset == /\ Ev("reset")
           /\ hist' = Rec[l].hist /\ dead' = FALSE /\ lfd' = Rec[l].lfd /\ kfd' = Rec[l].kfd
           /\ nsteps' = 0 /\ UNCHANGED nbad
           /\ rx' = [c \in Clients |-> RxInit] /\ supplied' = [c \in Clients |-> <<>>]
-          /\ bk' = <<>> /\ fdc' = [f \in Fds |-> 0] /\ tok' = {}
+          /\ bk' = <<>> /\ fdc' = [f \in Fds |-> 0] /\ tok' = {} /\ cause' = {}
 
 (***************************************************************************)
 (* C07 judged on the implementation's own logs, independently of the model *)
@@ -104,7 +107,7 @@ RxFeed(st, b) ==
         IN IF p = 0 THEN (IF ~PrefixCompat(h) \/ Len(h) > 4096 THEN [st EXCEPT !.bad = TRUE] ELSE [st EXCEPT !.hdr = h])
            ELSE LET r == ReadHead(Slice(h, 1, p + 3), 1) IN
                 IF ~r.ok THEN [st EXCEPT !.bad = TRUE]
-                ELSE LET st1 == [st EXCEPT !.hdr = <<>>, !.need = r.n, !.tagbuf = <<>>] IN
+                ELSE LET st1 == [st EXCEPT !.hdr = <<>>, !.need = r.n, !.tagbuf = <<>>, !.c503 = @ \/ r.code = 503] IN
                      RxFeed(IF r.n = 0 THEN RxFinish(st1) ELSE st1, Slice(h, p + 4, Len(h)))
 OwnerDigits(tag) == LET sl == {i \in 3..Len(tag) : tag[i] = 47} IN IF sl = {} THEN <<>> ELSE Slice(tag, 3, MinOf(sl) - 1)
 \* s is a subsequence of t without repetition (t has no repetition: tags are unique)
@@ -117,7 +120,7 @@ OwnBad(c) ==
     ELSE IF \E i \in 1..Len(tags) : OwnerDigits(tags[i]) # DigitsAscii(NatDigits(c)) THEN "own:foreign-response"
     ELSE IF ~IsSubseq(tags, supplied[c]) THEN "own:duplicated-or-reordered"
     ELSE ""
-TEndHist == /\ Ev("endhist") /\ UNCHANGED <<S, hist, lfd, kfd, nsteps, rx, supplied, dead>> /\ AbsSame
+TEndHist == /\ Ev("endhist") /\ UNCHANGED <<S, hist, lfd, kfd, nsteps, rx, supplied, dead, cause>> /\ AbsSame
             /\ LET badc == {c \in Clients : OwnBad(c) # ""} IN
                IF badc = {} THEN UNCHANGED nbad
                ELSE /\ nbad' = nbad + 1
@@ -125,7 +128,7 @@ TEndHist == /\ Ev("endhist") /\ UNCHANGED <<S, hist, lfd, kfd, nsteps, rx, suppl
                        PrintT("MISMATCH " \o ToJson([l |-> l, hist |-> hist, step |-> nsteps, kind |-> OwnBad(c),
                                                      detail |-> [c |-> c, supplied |-> supplied[c]]]))
 
-TConnect == /\ Ev("connect") /\ Common /\ UNCHANGED <<rx, supplied, fdc, tok>>
+TConnect == /\ Ev("connect") /\ Common /\ UNCHANGED <<rx, supplied, fdc, tok, cause>>
             /\ bk' = IF Rec[l].res = "ok" THEN Append(bk, Rec[l].c) ELSE bk
             /\ LET ev == Rec[l] IN
                Step(ev, IF ev.res # "ok" THEN "harness:connect-failed" ELSE "", CConnect(S, ev.c))
@@ -134,7 +137,12 @@ TSend == /\ Ev("send") /\ Common /\ RxSame
          /\ LET ev == Rec[l] IN Step(ev, "", CSendFds(S, ev.c, ev.bytes, ev.fds))
 
 TRecv == /\ Ev("recv") /\ Common
-         /\ rx' = [rx EXCEPT ![Rec[l].c] = RxFeed(@, Rec[l].bytes)] /\ UNCHANGED supplied /\ AbsSame
+         /\ rx' = [rx EXCEPT ![Rec[l].c] = RxFeed(@, Rec[l].bytes)] /\ UNCHANGED supplied /\ AbsSame /\ CauseSame
+         \* C09, on the log alone: the server hangs up only on clients that gave it a reason (they closed or shut
+         \* down a direction, could not take a large response, or were refused with the 503 message)
+         /\ (Rec[l].state = "eof" /\ Rec[l].c \notin cause /\ ~rx[Rec[l].c].c503) =>
+               PrintT("MISMATCH " \o ToJson([l |-> l, hist |-> hist, step |-> nsteps, kind |-> "own:closed-without-cause",
+                                             detail |-> [c |-> Rec[l].c]]))
          /\ LET ev == Rec[l]
                 c == ev.c
                 have == S.s2c[c]
@@ -152,15 +160,16 @@ TRecv == /\ Ev("recv") /\ Common
                THEN Bad(pre, [c |-> c, got |-> ev.bytes, state |-> ev.state, have |-> have]) /\ UNCHANGED S
                ELSE Step(ev, "", CRecv(S, c, Len(ev.bytes)))
 
-TClose == /\ Ev("close") /\ Common /\ RxSame /\ Step(Rec[l], "", CClose(S, Rec[l].c))
-TShutWr == /\ Ev("shutwr") /\ Common /\ RxSame /\ Step(Rec[l], "", CShutWr(S, Rec[l].c))
-TShutRd == /\ Ev("shutrd") /\ Common /\ RxSame /\ Step(Rec[l], "", CShutRd(S, Rec[l].c))
+TClose == /\ Ev("close") /\ Common /\ UNCHANGED <<rx, supplied>> /\ AbsSame /\ cause' = cause \cup {Rec[l].c} /\ Step(Rec[l], "", CClose(S, Rec[l].c))
+TShutWr == /\ Ev("shutwr") /\ Common /\ UNCHANGED <<rx, supplied>> /\ AbsSame /\ cause' = cause \cup {Rec[l].c} /\ Step(Rec[l], "", CShutWr(S, Rec[l].c))
+TShutRd == /\ Ev("shutrd") /\ Common /\ UNCHANGED <<rx, supplied>> /\ AbsSame /\ cause' = cause \cup {Rec[l].c} /\ Step(Rec[l], "", CShutRd(S, Rec[l].c))
 TKill == /\ Ev("kill") /\ Common /\ RxSame /\ Step(Rec[l], "", Kill(S))
 TSetLimit == /\ Ev("setlimit") /\ Common /\ RxSame /\ Step(Rec[l], "", SetLimit(S, Rec[l].limit))
 
 TRespond ==
     /\ Ev("respond") /\ Common
     /\ supplied' = [supplied EXCEPT ![Rec[l].c] = Append(@, Rec[l].tag)] /\ UNCHANGED <<rx, bk, fdc>>
+    /\ cause' = IF Len(Rec[l].ser) > 60000 THEN cause \cup {Rec[l].c} ELSE cause
     /\ tok' = {t \in tok : ~(t.c = Rec[l].c /\ t.tag = Rec[l].tag)}
     /\ LET ev == Rec[l]
            toks == {t \in S.outst : t.owner = ev.c /\ t.tag = ev.tag}
@@ -181,6 +190,7 @@ TRespondMany ==
     /\ LET its == Rec[l].items IN
        supplied' = [c \in Clients |-> supplied[c] \o [i \in 1..Len(SelectSeq(its, LAMBDA x : x.c = c)) |-> SelectSeq(its, LAMBDA x : x.c = c)[i].tag]]
     /\ UNCHANGED <<rx, bk, fdc>>
+    /\ cause' = cause \cup {Rec[l].items[i].c : i \in {j \in 1..Len(Rec[l].items) : Len(Rec[l].items[j].ser) > 60000}}
     /\ tok' = {t \in tok : ~(\E i \in 1..Len(Rec[l].items) : t.c = Rec[l].items[i].c /\ t.tag = Rec[l].items[i].tag)}
     /\ LET ev == Rec[l]
            r == RespondAll(S, ev.items)
@@ -295,6 +305,7 @@ AbsPoll(ev, yielded) ==
 
 TPoll ==
     /\ Ev("poll") /\ Common /\ UNCHANGED <<rx, supplied>>
+    /\ cause' = cause \cup (IF Rec[l].called THEN {Rec[l].hooks[i].c : i \in {j \in 1..Len(Rec[l].hooks) : Rec[l].hooks[j].h = "mid" /\ Rec[l].hooks[j].op # "send"}} ELSE {})
     /\ IF Rec[l].called /\ Rec[l].res # "panic" THEN AbsPoll(Rec[l], IF Rec[l].res = "ok" THEN Rec[l].yielded ELSE <<>>) ELSE AbsSame
     /\ LET ev == Rec[l] IN
        IF dead THEN UNCHANGED <<S, dead, nbad>>
@@ -338,7 +349,7 @@ TPoll ==
 \* requests() called while nothing is ready, epoll_wait interrupted by a signal (EINTR): no event is
 \* handled, the sweep still runs, the call returns an empty list (PollEintr of MC_Server, bound here)
 TPollEintr ==
-    /\ Ev("poll_eintr") /\ Common /\ UNCHANGED <<rx, supplied>>
+    /\ Ev("poll_eintr") /\ Common /\ UNCHANGED <<rx, supplied, cause>>
     /\ IF Rec[l].res # "panic" THEN AbsPoll(Rec[l], <<>>) ELSE AbsSame
     /\ LET ev == Rec[l] IN
        IF dead THEN UNCHANGED <<S, dead, nbad>>
